@@ -288,6 +288,44 @@ def check_l5(ctx) -> None:
                'cache key does not read the text (content coverage is C08 P5)')
 
 
+def check_l8(ctx) -> None:
+    from gxstat.inline import inline_sequential
+    rp = ctx.repo.module('geophires_x/Parameter.py').functions.get('ReadParameter')
+    ctx.require(rp is not None, 'Parameter.ReadParameter not found')
+    n = 0
+    for st in ast.walk(rp.node):
+        if not (isinstance(st, ast.Assign) and len(st.targets) == 1 and isinstance(st.targets[0], ast.Attribute) and st.targets[0].attr == 'value'):
+            continue
+        if not any(isinstance(g, ast.If) and 'listParameter' in norm(g.test) for g in _enclosing_ifs(st)):
+            continue
+        v = inline_sequential(st.value, st)
+        if not isinstance(v, (ast.ListComp, ast.List)) and not (isinstance(v, ast.Call) and dotted_name(v.func) in ('list', 'map')):
+            continue
+        n += 1
+        srcs = {x.attr for x in ast.walk(v) if isinstance(x, ast.Attribute) and x.attr in ('raw_entry', 'Comment', 'sValue')}
+        comma = any(isinstance(x, ast.Call) and isinstance(x.func, ast.Attribute) and x.func.attr == 'split' and x.args and
+                    isinstance(x.args[0], ast.Constant) and x.args[0].value == ',' for x in ast.walk(v))
+        blank_split = [x for x in ast.walk(v) if isinstance(x, ast.Call) and isinstance(x.func, ast.Attribute) and x.func.attr == 'split' and not x.args]
+        if 'raw_entry' not in srcs and 'Comment' not in srcs and not comma:
+            raise AnalysisError('L8: the list arm of ReadParameter builds the list from neither raw_entry nor Comment: cannot decide')
+        ok = 'raw_entry' in srcs and comma and 'Comment' not in srcs and not blank_split
+        ctx.check(ok, 'L8', 'ReadParameter/list-entry-split-on-commas', f'{rp.module.rel}:{st.lineno}',
+                  f'the list arm builds the values from `{norm(v)[:100]}`: '
+                  f'{"the Comment field is the remaining comma fields glued together without separator, " if "Comment" in srcs else ""}'
+                  f'{"split on blanks, " if blank_split else ""}so `Gradients,60,40,30` and `Gradients, 60, 40, 30` are read differently: '
+                  f'whitespace after the commas changes the result', fact="raw_entry.split(',') with stripped elements")
+    ctx.floor('L8', n, 1, 'whole-list stores in the list arm of ReadParameter')
+
+
+def _enclosing_ifs(node):
+    from gxstat.srcmodel import parent as _p
+    cur = _p(node)
+    while cur is not None:
+        if isinstance(cur, ast.If):
+            yield cur
+        cur = _p(cur)
+
+
 def check_l7(ctx) -> None:
     """The Monte-Carlo driver looks the base value of a `#` input up in the base input file with its own line matcher.  Like the
     simulator's reader it must look at the parameter-name field at the start of the line, not anywhere in the line (comments,
@@ -343,6 +381,9 @@ def run(ctx) -> None:
     check_l3(ctx)
     check_l4(ctx)
     check_l5(ctx)
+    ctx.rule('L8', 'a multi-value (list) entry is parsed from the verbatim line split on commas with each element stripped: blanks after the '
+                   'commas are irrelevant (the pre-split Comment field has the commas removed and cannot be re-tokenised)')
+    check_l8(ctx)
     ctx.rule('L7', 'the Monte-Carlo driver matches the name of a `#` input at the start of a base-file line')
     check_l7(ctx)
     ctx.undecided('nothing numeric is involved; encodings other than UTF-8 are outside the property')
